@@ -162,7 +162,7 @@ def arena_placeholder_skips(prog, name, _depth=0):
                 if v is None:
                     return None
                 total += v
-            elif c.method in ("take", "step_by", "skip_while", "take_while", "nth", "split_first", "split_at", "split_last", "filter", "filter_map") and (c.trait == "std::iter::Iterator" or "slice" in (c.name or "")):
+            elif c.method in ("take", "step_by", "skip_while", "take_while", "nth", "split_first", "split_at", "split_last", "split_first_mut", "split_at_mut", "split_last_mut", "split_first_chunk", "split_at_checked", "filter", "filter_map") and (c.trait == "std::iter::Iterator" or "slice" in (c.name or "")):
                 return None
             elif (c.res or "").startswith(ARENA + "::") and c.res != b.id:
                 inner = arena_placeholder_skips(prog, c.res.rsplit("::", 1)[-1], _depth + 1)
@@ -359,6 +359,8 @@ def text_changes(prog, pv, body, op, slicing_ok=False):
     for a in pv.of_operand(body, op):
         if a[0] == "call" and a[3] == body.id and a[2] not in prog.bodies and a[1] not in prog.bodies:
             m = a[1].rsplit("::", 1)[-1].split("::<")[0]
+            if slicing_ok and m in ("split_at", "split_at_checked", "split_at_unchecked"):
+                continue  # `s.split_at(n)` is `(&s[..n], &s[n..])`: slicing at a position, not at a content-dependent delimiter
             if m in STR_CHANGE or (not slicing_ok and m in ("get", "index", "get_unchecked") and "Range" in (a[2] or "")):
                 out.add(m)
     return sorted(out)
